@@ -256,7 +256,7 @@ def assemble_fn(unit, spec, idx, raw, counts):
     if req and spec.get("probe", True) and f["has_self"]:
         pname = "sat_probe_" + re.sub(r"\W+", "_", spec["path"])
         args = spec.get("probe_args", "")
-        r2 = [c.replace("old(self)", "s").replace("self", "s") for c in req]
+        r2 = [re.sub(r"\bself\b", "s", re.sub(r"old\((\w+)\)", r"\1", c)) for c in req]
         probes.append((pname, "    proof fn %s(s: %s%s)\n        requires\n%s        ensures false,\n    {}\n" % (pname, unit.container.split()[-1], (", " + args) if args else "", "".join("            " + c + ",\n" for c in r2))))
     return f, "    " + text.strip("\n") + "\n", probes
 
